@@ -42,7 +42,10 @@ META = {
             "encodings only (abstract hash functions); C11_id_memo_transparent: every sequence of setters and getHash calls on "
             "a memoised block answers hash(raw current content). The real memo code is exercised by API sequences (op memo: "
             "hash; mutate one field through every public setter of VbkBlock/BtcBlock and the public members of ATV/VTB; hash) "
-            "compared with a fresh object decoded from the same encoding, incl. progpow hashes. Not modelled: BFI wire types, "
+            "compared with a fresh object decoded from the same encoding, incl. progpow hashes. C11_counting_*: the container arithmetic of CountingContext (C12's CountDefs) is the "
+            "overhead of the PopData codec (prefix = singleBEValueSize, estimate = esize PopData, running figure = encoded "
+            "size); the real CountingContext is driven by op count against PopData::estimateSize/toVbkEncoding().size() with "
+            "limits at the exact boundary +-1 around the 255->256 prefix growth of each kind. Not modelled: BFI wire types, "
             "PopPayouts. Stored "
             "indices are decoded from bytes only (no enc op).",
     "technique": "Coq proof (codec combinators, structural induction) + extraction-based differential correspondence",
